@@ -24,10 +24,11 @@ CHECKS = {
             "against the specification; advantages of real PPO/A2C/REINFORCE rollouts are validated as part of collector traces.",
             "exact on a dyadic grid (float32 exact); arbitrary reals not decided (GAE is multilinear for fixed masks).",
             "DESIGN.md section 4 C03"),
-    "C04": ("TLA+ OnPolicy collector spec: TLC exhaustive + trace validation of real PPO/A2C/REINFORCE rollouts (C2S)",
+    "C04": ("TLA+ OnPolicy collector spec: TLC exhaustive + trace validation of real PPO/A2C/REINFORCE rollouts (C2S) + state cover of the model on the real collector (S2C)",
             "TLC checks OnPolicy.tla (per-step collector over wrapped finite MDPs, tabular policy, post_collect GAE) against the "
             "declarative sentences of C04 on small configurations; every row of thousands of real rollouts (algo.reset + "
-            "algo.iteration, 1..3 environments, discrete/masked/box actions, wrapper stacks) is validated clause by clause.",
+            "algo.iteration, 1..3 environments, discrete/masked/box actions, wrapper stacks) is validated clause by clause; the real "
+            "collector is also placed in every carried state the bounded model reaches and stepped once per key.",
             "TableEnv / TableACPolicy stand-ins built on public extension points; production MLP policy covered by re-evaluation atoms.",
             "DESIGN.md section 4 C04"),
     "C06": ("TLA+ ReplayRing spec: TLC exhaustive over insertion histories + trace validation of real ReplayBuffer.add/sample",
